@@ -6,7 +6,11 @@ of every example document through parse -> calculate -> validate -> digest -> si
 correct -> replicate in 16 worker processes (recover, per-input watchdog, ulimit -v); a panic, hang
 or abort is directly the failing input; every returned error must be a *gobl.Error carrying a
 documented key that serialises.  Sites recorded in findings/C14.json are matched narrowly by
-(stage, top /repo frame function, mutation kind, member class)."""
+(stage, top /repo frame function, mutation kind, member class).
+Two further streams go beyond ONE change to ONE document in ONE request: lookup_combos (every document under every combination of
+regime / currency / add-on lookup states: what lies behind two failed lookups whose fallbacks hide each other) and bulk_concurrency
+(one `gobl serve` process with ~1700 requests of one POST /bulk stream in flight - every action, example document and spelling of a
+document type - against the same requests sent one at a time: the process survives, answers all, and answers the same)."""
 import glob
 import shutil
 import json
@@ -259,7 +263,7 @@ def cli_sample(c, repo, seed, nrandom, total, quick):
     return bad
 
 
-def serve_requests(c, repo):
+def serve_requests(c, repo, stream=None):
     """`gobl serve`: every endpoint with missing / null / ill-typed bodies and payload members, and the bulk actions with the
     same; the server answers every request and is still alive afterwards (a panic in a handler that is not recovered, or
     in a bulk goroutine, takes the process down)."""
@@ -322,6 +326,9 @@ def serve_requests(c, repo):
                     r["payload"] = pl
                 lines.append(json.dumps(r))
             sent.append(("POST", "/bulk", "\n".join(lines) + "\n"))
+        # the concurrency stream of bulk_concurrency (every action, document and type spelling, all in flight at once), twice
+        if stream:
+            sent += [("POST", "/bulk", stream.decode())]
         for meth, ep, body in sent:
             c.count("serve-requests", 1, (meth, ep, body[:200]))
             try:
@@ -478,6 +485,476 @@ def summary_combos(c, repo):
     shutil.rmtree(tmpd, ignore_errors=True)
 
 
+def run_case_files(c, files, stream, keyf, docf, wheref, nproc=12):
+    """Runs replay-shaped case files through `vharness c14files` (whole pipeline) in nproc processes and judges the
+    records like the sweep does."""
+    chunks = [files[i::nproc] for i in range(nproc) if files[i::nproc]]
+    results = [None] * len(chunks)
+
+    def one(i):
+        outs_ = []
+        fs = chunks[i]
+        for j in range(0, len(fs), 300):
+            try:
+                rc, out, err = harness("c14files", *fs[j:j + 300], timeout=900)
+            except subprocess.TimeoutExpired:
+                rc, out, err = -9, "", "timeout"
+            outs_.append((rc, out, err, fs[j:j + 300]))
+        results[i] = outs_
+
+    ths = [threading.Thread(target=one, args=(i,)) for i in range(len(chunks))]
+    [t.start() for t in ths]
+    [t.join() for t in ths]
+    reported_ = {}
+    found_ = []
+    for outs_ in results:
+        for rc, out, err, fs in outs_ or []:
+            done = set()
+            for res in jlines(out):
+                done.add(res["file"])
+                src = json.load(open(res["file"]))
+                c.count(stream, 1, keyf(src))
+                recs = []
+                for o in res["outs"]:
+                    if o["result"] in ("panic", "baderr"):
+                        recs.append({"type": o["result"], "stage": o["stage"], "func": o.get("func", ""), "msg": o.get("msg", ""),
+                                     "key": o.get("key", ""), "doc": docf(src), "path": src["path"],
+                                     "kind": src["kind"], "data": src["data"], "hex": ""})
+                if recs:
+                    found_.append((src["path"].count("=") - src["path"].count("=asis"), len(found_), src, recs))
+            if rc != 0:
+                # the process died (a fatal error is not recoverable) or hung: the first file without an answer is the input
+                left = [f for f in fs if f not in done]
+                if left and rc != 2:
+                    src = json.load(open(left[0]))
+                    c.report("%s: the process running the pipeline aborts (rc %s) on this input: %s" % (wheref(src), rc, err[-300:]),
+                             replay_obj({"doc": docf(src), "path": src["path"], "kind": src["kind"], "stage": "abort", "data": src["data"]}))
+                else:
+                    c.report("%s: run failed: %s" % (stream, err[-400:]), {"machinery": "c14files"}, no_input=True)
+    # one report per (result, site, document type): the simplest input that shows it (fewest members changed; every case is counted above)
+    for _, _, src, recs in sorted(found_, key=lambda x: x[:2]):
+        fresh_ = []
+        for r in recs:
+            k = (r["type"], r["func"], r.get("key", ""), src.get("schema", ""))
+            if match_finding(c, r) is None:
+                if k in reported_:
+                    reported_[k] += 1
+                    continue
+                reported_[k] = 1
+            fresh_.append(r)
+        judge_records(c, fresh_, wheref(src))
+    c.cov.setdefault("same_site_inputs_not_reported_again", {})[stream] = {"%s %s %s" % (k[0], k[1], k[3]): n - 1 for k, n in reported_.items() if n > 1}
+
+
+def lookup_combos(c, repo, quick):
+    """Every example document and every rich synthetic document of a type that carries them, under every COMBINATION of the
+    three code lookups a calculation starts with - which regime (as given / none determinable: no $regime and no tax_id /
+    a tax_id country that has no regime / unknown $regime / $regime left to the tax_id / unknown tax_id country), which
+    currency (as given / absent / empty / syntactically fine but undefined / a retired ISO code / another defined one) and
+    which add-ons (as given / none / an unknown one).  The single-member sweep changes one of them at a time, and each
+    lookup has a fallback that hides the failure of another (the regime supplies the currency, the add-on the regime ...);
+    only the combinations reach the code behind two failed lookups.  Whole pipeline, judged like the sweep: a result or a
+    structured error, never a panic."""
+    regs = set(d.upper() for d in os.listdir(os.path.join(repo, "regimes")) if len(d) == 2) if os.path.isdir(os.path.join(repo, "regimes")) else set()
+    noreg = next((cc for cc in ("JP", "CN", "AU", "ZA", "KR", "NZ") if cc not in regs), "JP")
+    docs = []
+    for rel in sorted(glob.glob(os.path.join(repo, "examples", "*", "out", "*.json")) +
+                      glob.glob(os.path.join(repo, "**", "examples", "out", "*.json"), recursive=True)):
+        docs.append((os.path.relpath(rel, repo), rel))
+    for f in sorted(glob.glob(os.path.join(WORK, "c14rich", "rich-bill-*.json"))):
+        if "+" not in os.path.basename(f):
+            docs.append(("rich:" + os.path.basename(f), f))
+    seen_ = set()
+    docs = [d for d in docs if not (d[1] in seen_ or seen_.add(d[1]))]
+
+    def parties(doc):
+        return [v for v in doc.values() if isinstance(v, dict) and ("tax_id" in v or "name" in v or "$regime" in v)]
+
+    def set_regime(doc, how):
+        if how == "asis":
+            return
+        ps = parties(doc)
+        if how in ("none", "country-without-regime", "left-to-tax-id", "unknown-country"):
+            doc.pop("$regime", None)
+            for p in ps:
+                p.pop("$regime", None)
+        if how == "none":
+            for p in ps:
+                p.pop("tax_id", None)
+        elif how == "country-without-regime":
+            for p in ps:
+                p["tax_id"] = {"country": noreg}
+        elif how == "unknown-country":
+            for p in ps:
+                if isinstance(p.get("tax_id"), dict):
+                    p["tax_id"]["country"] = "QQ"
+        elif how == "unknown":
+            doc["$regime"] = "QQ"
+
+    def set_currency(doc, how):
+        if how == "asis":
+            return
+        if how == "absent":
+            doc.pop("currency", None)
+        elif how == "other":
+            doc["currency"] = "JPY" if doc.get("currency") != "JPY" else "USD"
+        else:
+            doc["currency"] = {"empty": "", "undefined": "XXQ", "retired": "DEM"}[how]
+
+    def set_addons(doc, how):
+        if how == "none":
+            doc.pop("$addons", None)
+        elif how == "unknown":
+            doc["$addons"] = ["zz-unknown-v1"]
+
+    RS = ["asis", "none", "country-without-regime", "unknown", "left-to-tax-id", "unknown-country"]
+    CS = ["asis", "absent", "empty", "undefined", "retired", "other"]
+    AS = ["asis", "none", "unknown"]
+    tmpd = os.path.join(WORK, "c14lookup")
+    shutil.rmtree(tmpd, ignore_errors=True)
+    os.makedirs(tmpd)
+    files = []
+    types = {}
+    for name, path in docs:
+        try:
+            env = json.load(open(path))
+        except Exception:
+            continue
+        d0 = env.get("doc") if isinstance(env, dict) and isinstance(env.get("doc"), dict) else env
+        if not isinstance(d0, dict) or not any(k in d0 for k in ("currency", "$regime", "supplier", "$addons")):
+            continue
+        sch = str(d0.get("$schema", "")).split("draft-0/")[-1]
+        combos = [(r, cu, a) for r in RS for cu in CS for a in AS if (r, cu, a) != ("asis", "asis", "asis")]
+        # quick tier: the first document of each (type, regime directory): every regime x currency pair, and the add-on states under every
+        # regime state with the currency as given / undefined; every other document: a seeded dozen of the combinations
+        if quick:
+            kk = (sch, name.split("/")[1] if "/" in name else name)
+            types[kk] = types.get(kk, 0) + 1
+            if types[kk] == 1:
+                combos = [x for x in combos if x[2] == "asis" or x[1] in ("asis", "undefined")]
+            else:
+                combos = c.rng.sample(combos, 12)
+        for r, cu, a in combos:
+            e2 = json.loads(json.dumps(env))
+            d = e2["doc"] if d0 is not env else e2
+            set_regime(d, r)
+            set_currency(d, cu)
+            set_addons(d, a)
+            f = os.path.join(tmpd, "%05d.json" % len(files))
+            json.dump({"doc": name, "kind": "lookups", "path": "regime=%s,currency=%s,addons=%s" % (r, cu, a), "schema": sch,
+                       "data": json.dumps(e2)}, open(f, "w"))
+            files.append(f)
+    run_case_files(c, files, "lookup-combos", lambda s: (s["doc"], s["path"]), lambda s: "lookup-combos " + s["doc"],
+                   lambda s: "lookup combos (%s %s, %s)" % (s.get("schema", ""), s["doc"], s["path"]))
+    c.cov["lookup_combos"] = {"documents": len(docs), "cases": len(files), "regime_states": RS, "currency_states": CS, "addon_states": AS,
+                              "country_without_regime": noreg}
+    shutil.rmtree(tmpd, ignore_errors=True)
+
+
+def bulk_stream(c, repo, quick, ids):
+    """The requests of the concurrency streams: (request object, answer determined by the request?, filler data?) in a seeded order.  Every bulk action;
+    every example document through every action that takes a document; and every value of the request's own string members
+    in every accepted spelling: the document type of build/sign as full schema ID, schema path, Go type name, package.Type and
+    every trailing part of the path (what FindType accepts), known and unknown; schema paths; regime codes; templates."""
+    import base64 as _b64
+    b64 = lambda x: _b64.b64encode(x if isinstance(x, bytes) else json.dumps(x).encode()).decode()
+    reqs = []
+
+    def add(action, payload, det=True, tag="", filler=False):
+        r = {"action": action, "req_id": "%s-%s%d" % (action, tag, len(reqs))}
+        if payload is not None:
+            r["payload"] = payload
+        reqs.append((r, det, filler))
+
+    # rich synthetic documents by schema path: the data a typed request of that type carries (the type is NOT in the data)
+    rich = {}
+    for f in glob.glob(os.path.join(WORK, "c14rich", "rich-*.json")):
+        try:
+            d = json.load(open(f))
+        except Exception:
+            continue
+        if isinstance(d, dict) and "$schema" in d and "+" not in os.path.basename(f):
+            sch = d.pop("$schema")
+            rich[sch] = d
+    small = {"title": "Note", "content": "A short message.", "name": "Name", "code": "C1", "country": "ES", "currency": "EUR", "num": "1", "label": "l",
+             "key": "k", "text": "t", "url": "https://example.com", "addr": "a@example.com", "street": "s", "locality": "l", "percent": "10%", "value": "1",
+             "amount": "1.00", "reason": "r", "base": "1.00", "i": 1, "type": "standard", "date": "2024-01-01", "issue_date": "2024-01-01"}
+    prefix = "https://gobl.org/draft-0"
+    nspell = 0
+    for sid in ids:
+        path_ = sid[len(prefix):] if sid.startswith(prefix) else sid
+        parts = [x for x in path_.split("/") if x]
+        camel = "".join(w[:1].upper() + w[1:] for w in parts[-1].split("-")) if parts else ""
+        spell = [(sid, True), (path_, True), (path_.lstrip("/"), True)]
+        if len(parts) >= 2:
+            spell += [(parts[-2] + "." + camel, True), (".".join(parts[:-1]) + "." + camel, True)]
+        spell += [(camel, False), (parts[-1] if parts else "", False), (sid.upper(), True), (sid + "/", True), (" " + path_, True), (path_ + "#", True)]
+        spell += [(path_[i:], False) for i in range(2, max(len(path_) - 2, 2))]
+        seen_ = set()
+        data = rich.get(sid)
+        for term, det in spell:
+            if term in seen_:
+                continue
+            seen_.add(term)
+            nspell += 1
+            big = data is not None and det and len(seen_) <= 3
+            add("build" if nspell % 4 else "sign", {"type": term, "data": b64(data if big else small)}, det=det and big, tag="t", filler=not big)
+    # unknown and odd type terms
+    for term in ["nosuch", "bill/nosuch", "Nosuch.Type", ".", "..", "/", "//", "a.b.c.d", "https://", "http://x", "bill.", ".Invoice", "é", "bill/invoice/", "x" * 300]:
+        add("build", {"type": term, "data": b64(small)}, tag="u", filler=True)
+    # every example document through every action that takes one
+    n = 0
+    for f in sorted(glob.glob(os.path.join(repo, "examples", "*", "out", "*.json"))):
+        raw = open(f, "rb").read()
+        try:
+            env = json.loads(raw)
+        except ValueError:
+            continue
+        n += 1
+        if quick and n % 3 != c.seed % 3:
+            continue
+        doc = env.get("doc") if isinstance(env.get("doc"), dict) else None
+        add("validate", {"data": b64(raw)})
+        add("build", {"data": b64(raw)})
+        add("verify", {"data": b64(raw)})
+        add("replicate", {"data": b64(raw)})
+        add("correct", {"data": b64(raw), "schema": True})
+        add("correct", {"data": b64(raw), "options": b64({"type": "credit-note", "reason": "r", "issue_date": "2024-01-01"})})
+        if doc:
+            sch = doc.get("$schema", "")
+            bare = {k: v for k, v in doc.items() if k != "$schema"}
+            add("build", {"data": b64(doc), "envelop": True})
+            add("build", {"data": b64(bare), "type": sch[len(prefix):] if sch.startswith(prefix) else sch})
+            add("sign", {"data": b64(bare), "type": sch})
+            add("build", {"data": b64({}), "template": b64(doc)})
+    for sid in ids:
+        add("schema", {"path": sid[len(prefix):].lstrip("/") if sid.startswith(prefix) else sid})
+    for d in sorted(os.listdir(os.path.join(repo, "regimes"))) if os.path.isdir(os.path.join(repo, "regimes")) else []:
+        if len(d) == 2:
+            add("regime", {"code": d})
+            add("regime", {"code": d.upper()})
+    for act in ("keygen", "ping", "schemas", "nosuch"):
+        for _ in range(5):
+            add(act, None)
+    c.rng.shuffle(reqs)
+    return reqs
+
+
+def bulk_observe(resp, action=""):
+    """Projected observable of one bulk response: class, error code/key, type and (build, sign: the document keeps its uuid) digest
+    of the document."""
+    if resp.get("error") is not None:
+        e = resp["error"]
+        return ("error", e.get("code"), e.get("key")) if isinstance(e, dict) else ("error?", str(e)[:40])
+    if "payload" not in resp:
+        return ("empty",)
+    pl = resp["payload"]
+    if isinstance(pl, dict) and isinstance(pl.get("doc"), dict):
+        dig = (pl.get("head") or {}).get("dig") or {}
+        return ("ok", pl["doc"].get("$schema"), dig.get("val") if "uuid" in pl["doc"] and action in ("build", "sign") else None)
+    if isinstance(pl, dict) and isinstance(pl.get("$schema"), str):
+        return ("ok", pl["$schema"])
+    if isinstance(pl, dict) and "private" in pl:
+        return ("ok", "key")
+    return ("ok", json.dumps(pl, sort_keys=True)[:200])
+
+
+class BulkServer:
+    """A `gobl serve` process on a free port (own signing key), for POST /bulk."""
+
+    def __init__(self, tag):
+        import socket
+        self.gobl = os.path.join(BIN, "gobl")
+        self.tmpd = tempfile.mkdtemp(prefix="c14bulk" + tag, dir=WORK)
+        key = os.path.join(self.tmpd, "key.jwk")
+        subprocess.run([self.gobl, "keygen", key], stdout=subprocess.PIPE, stderr=subprocess.PIPE, env=GOENV)
+        s0 = socket.socket()
+        s0.bind(("127.0.0.1", 0))
+        self.port = s0.getsockname()[1]
+        s0.close()
+        self.logf = os.path.join(self.tmpd, "serve.log")
+        self.log_ = open(self.logf, "w")
+        self.proc = subprocess.Popen([self.gobl, "serve", "-p", str(self.port)] + (["-k", key] if os.path.exists(key) else []),
+                                     stdout=self.log_, stderr=self.log_, env=GOENV)
+        self.up = False
+        for _ in range(200):
+            time.sleep(0.05)
+            if self.proc.poll() is not None:
+                break
+            try:
+                if self.call("GET", "/", None)[0] == 200:
+                    self.up = True
+                    break
+            except OSError:
+                pass
+
+    def call(self, method, path, body, timeout=300):
+        import http.client
+        h = http.client.HTTPConnection("127.0.0.1", self.port, timeout=timeout)
+        try:
+            h.request(method, path, body=body, headers={"Content-Type": "application/json"} if body is not None else {})
+            r = h.getresponse()
+            return r.status, r.read()
+        finally:
+            h.close()
+
+    def bulk(self, body, timeout=300):
+        """(answers, None) or (None, description of how the server failed)."""
+        import http.client
+        try:
+            st, data = self.call("POST", "/bulk", body, timeout)
+        except (OSError, http.client.HTTPException) as e:
+            time.sleep(0.3)
+            return None, "%s (%r)" % ("stops answering" if self.proc.poll() is None else "dies with exit status %s" % self.proc.returncode, e)
+        if st != 200:
+            return None, "answers POST /bulk with status %s" % st
+        return jlines(data.decode("utf-8", "replace")), None
+
+    def log_tail(self):
+        """The server's output from the first panic / fatal error line on (a fatal error dumps every goroutine: the reason is at the head)."""
+        self.log_.flush()
+        t = open(self.logf).read()
+        m = re.search(r"^(panic: |fatal error: )", t, re.M)
+        return t[m.start():][:6000] if m else t[-6000:]
+
+    def close(self):
+        try:
+            self.proc.kill()
+            self.proc.wait(timeout=10)
+        except (OSError, subprocess.TimeoutExpired):
+            pass
+        self.log_.close()
+        shutil.rmtree(self.tmpd, ignore_errors=True)
+
+
+def bulk_concurrency(c, repo, quick):
+    """One process, many requests in flight: the bulk operation (POST /bulk of `gobl serve`) runs every request of a stream in its
+    own goroutine.  One stream of bulk_stream() requests is given (a) at once - all requests concurrent - to three freshly started
+    servers and (b) to a fourth one request at a time, each sent after the answer to the previous one was read (the sequential run).
+    Property: the process survives (still serving afterwards), every request is answered with a result or an error record carrying a
+    code and a documented key / a message, the stream ends with its final record, and the concurrent answers equal the sequential
+    ones (class, error code and key, type and digest of the built document) for every request whose answer is determined by it."""
+    srv = BulkServer("s")
+    try:
+        if not srv.up:
+            c.report("gobl serve did not come up", {"machinery": "serve"}, no_input=True)
+            return None
+        ids = []
+        outs_, bad = srv.bulk(b'{"action":"schemas","req_id":"s"}\n')
+        for o in outs_ or []:
+            if o.get("req_id") == "s" and isinstance(o.get("payload"), dict):
+                ids = o["payload"].get("list", [])
+        reqs = bulk_stream(c, repo, quick, ids)
+        if len(reqs) < 100 or not ids:
+            c.report("bulk concurrency: could not build the request stream (%d requests, %d schemas)" % (len(reqs), len(ids)),
+                     {"machinery": "POST /bulk schemas"}, no_input=True)
+            return None
+        body = "".join(json.dumps(r) + "\n" for r, _, _ in reqs).encode()
+        det = {r["req_id"]: d for r, d, _ in reqs}
+        byid = {r["req_id"]: r for r, _, _ in reqs}
+        filler = set(r["req_id"] for r, _, fl in reqs if fl)
+        how_to = "bin/gobl serve -p 8080 & curl -s -X POST --data-binary @%s http://127.0.0.1:8080/bulk"
+
+        def keep_stream():
+            os.makedirs(os.path.join(VERIF, "replays"), exist_ok=True)
+            f = os.path.join(VERIF, "replays", "C14-bulk-stream-%d.jsonl" % c.seed)
+            open(f, "wb").write(body)
+            return f
+
+        def crash_of(err):
+            m = re.search(r"^(github\.com/invopop/gobl[^\s(]*(?:\([^)]*\))?[^\s(]*)\(", err, re.M)
+            mm = re.search(r"^(panic: .*|fatal error: .*)$", err, re.M)
+            return (mm.group(1) if mm else "no panic line")[:160], m.group(1) if m else "?"
+
+        def judge_answers(outs_, how, want):
+            answered = {}
+            finals = 0
+            for o in outs_:
+                if o.get("is_final"):
+                    finals += 1
+                    continue
+                answered[o.get("req_id")] = o
+                c.count("bulk-" + how, 1, o.get("req_id"))
+                e = o.get("error")
+                rq = byid.get(o.get("req_id"), {})
+                if e is None and "payload" not in o:
+                    # reported: build/sign of a document that has no members of its type (here: the typed requests carrying the filler
+                    # object, none of whose members the type knows) is answered with neither payload nor error (schema.Insert writes
+                    # `{"$schema":"...",}`, processRequest drops the marshalling error)
+                    if not (rq.get("action") in ("build", "sign") and o.get("req_id") in filler):
+                        c.report("POST /bulk (%s) answers request %s with neither a result nor an error" % (how, o.get("req_id")),
+                                 {"command": how_to % "<file with this line>", "stdin": json.dumps(rq)[:20000]})
+                if e is not None:
+                    ok = isinstance(e, dict) and isinstance(e.get("code"), int) and (e.get("key") in DOCUMENTED if e.get("key") else bool(e.get("message")))
+                    if not ok:
+                        c.report("POST /bulk (%s) answers request %s with an error record without code and documented key / message: %s" %
+                                 (how, o.get("req_id"), json.dumps(e)[:200]), {"command": how_to % "<file with this line>", "stdin": json.dumps(rq)[:20000]})
+            missing = [i for i in want if i not in answered]
+            if finals != 1 or missing:
+                c.report("POST /bulk (%s) answers %d of %d requests of one stream, final records: %d; first unanswered: %s" %
+                         (how, len(answered), len(want), finals, missing[:3]),
+                         {"command": how_to % keep_stream(), "unanswered": missing[:20], "clause": "every operation returns a result or an error"})
+            return answered
+
+        # (a) all at once, to freshly started servers (what is lazily initialised is initialised under contention each time)
+        conc = None
+        for rnd in range(3):
+            s2 = srv if rnd == 0 else BulkServer("c%d" % rnd)
+            try:
+                outs_, bad = (s2.bulk(body) if s2.up else (None, "did not come up"))
+                if bad is None:
+                    try:
+                        alive = s2.call("GET", "/", None, 30)[0] == 200
+                    except OSError:
+                        alive = False
+                    if not alive:
+                        bad = "no longer answers after the stream"
+                if bad is not None:
+                    msg, fn = crash_of(s2.log_tail())
+                    c.report("gobl serve %s while the %d requests of one POST /bulk stream are in flight: %s in %s" % (bad, len(reqs), msg, fn),
+                             {"command": how_to % keep_stream(), "requests": len(reqs), "server_log_tail": s2.log_tail()[:3000],
+                              "clause": "the operation returns a result or an error; it never panics, hangs or aborts the process"})
+                    return body
+            finally:
+                if s2 is not srv:
+                    s2.close()
+            a = judge_answers(outs_, "concurrent", byid)
+            conc = conc or a
+        # (b) one at a time in one process
+        s3 = BulkServer("q")
+        seq_outs = []
+        try:
+            for r, _, _ in reqs:
+                line = json.dumps(r).encode() + b"\n"
+                outs_, bad = s3.bulk(line, 120) if s3.up else (None, "did not come up")
+                if bad is not None:
+                    msg, fn = crash_of(s3.log_tail())
+                    c.report("gobl serve %s on request %s sent alone (after %d answered ones): %s in %s" % (bad, r["req_id"], len(seq_outs), msg, fn),
+                             {"command": how_to % "<file with this line>", "stdin": line.decode()[:20000], "server_log_tail": s3.log_tail()[:3000]})
+                    return body
+                seq_outs += [o for o in outs_ if not o.get("is_final")]
+        finally:
+            s3.close()
+        seq = judge_answers(seq_outs + [{"is_final": True}], "sequential", byid)
+        ndiff = 0
+        for i, o in sorted(conc.items()):
+            if i not in seq or not det.get(i):
+                continue
+            a, b = bulk_observe(o, byid[i]["action"]), bulk_observe(seq[i], byid[i]["action"])
+            if a != b:
+                ndiff += 1
+                if ndiff <= 3:
+                    c.report("POST /bulk answers request %s differently when other requests are in flight: %s, alone: %s" % (i, a, b),
+                             {"command": how_to % keep_stream(), "request": json.dumps(byid[i])[:3000], "concurrent": a, "sequential": b,
+                              "clause": "result of a request inside one process equals the one it gets alone"})
+        c.cov["bulk_concurrency"] = {"requests_per_stream": len(reqs), "concurrent_streams": 3, "sequential_streams": 1, "stream_bytes": len(body),
+                                     "compared_with_sequential": sum(1 for i in conc if det.get(i) and i in seq), "differences": ndiff,
+                                     "empty_answers_reported_defect": sum(1 for o in conc.values() if bulk_observe(o) == ("empty",))}
+        return body
+    finally:
+        srv.close()
+
+
 def run(c):
     quick = c.tier == "quick"
     if not std_builds(c, cli=True):
@@ -500,7 +977,13 @@ def run(c):
     tie_cores(c, quick)
     run_corpus(c)
     summary_combos(c, REPO)
-    serve_requests(c, REPO)
+    t1 = time.time()
+    lookup_combos(c, REPO, quick)
+    c.cov.setdefault("lookup_combos", {})["wall_s"] = round(time.time() - t1, 1)
+    t1 = time.time()
+    stream = bulk_concurrency(c, REPO, quick)
+    c.cov.setdefault("bulk_concurrency", {})["wall_s"] = round(time.time() - t1, 1)
+    serve_requests(c, REPO, stream)
     seed = c.seed
     nrandom = 6000 if quick else 2000000
     t0 = time.time()
@@ -548,7 +1031,9 @@ def run(c):
                      "array element, [null], empty/huge numbers and strings, unknown currency/country/regime/addon codes, "
                      "empty/null signatures, nil head links/stamps, deep nesting) of every example output document AND of rich synthetic documents (every member of every registered type populated by reflection; invoice and order also under every addon; their mutations sampled 1 in C14_RICH_STRIDE in the quick tier, all in the thorough tier), the same mutations applied to the header carried INSIDE a real signature (forged-* kinds: payload signed by the harness key, envelope header rich in stamps/links/tags/meta; verified with, without and with explicit keys), plus "
                      "seeded random bytes/JSON/YAML/corruptions; each is a distinct (document, member, mutation) triple by "
-                     "construction; non-trivial = inputs that parse and reach calculation (the others exercise the parser only)")
+                     "construction; non-trivial = inputs that parse and reach calculation (the others exercise the parser only); "
+                     "lookup-combos = distinct (document, regime state, currency state, add-on state); bulk-concurrent / bulk-sequential = "
+                     "distinct requests (action, document, type spelling) answered inside one server process")
     judge_records(c, recs, "sweep")
     if aborts:
         inputs, _ = fetch_inputs(REPO, seed, nrandom, [a["n"] for a in aborts if a["n"] > 0])
